@@ -275,6 +275,8 @@ Inductive cmd :=
 | CRecv (i n : N)      (* an n-chunk snapshot stream for index i arrives and is finalized *)
 | CRecvX (i n m : N)   (* the same for an image with one external file of m chunks *)
 | CApply (i : N)       (* the engine persists the update carrying received snapshot i *)
+| CRecord (i : N)      (* only the first half of it: SaveRaftState; onSnapshotSaved has not run yet
+                          (the chunk receiver and the snapshot worker run concurrently with it) *)
 | CShrink (i : N)
 | CCompact (i : N)
 | CRestart             (* NodeHost start: processOrphans *)
@@ -311,6 +313,8 @@ Definition do_cmd (ord : list dname -> list dname) (s : state) (c : cmd) : state
     seq (exec s (mktemp_ops (DRecv i) ++ map OFs (recvx_fs i n m))) (finalize (DRecv i) i [])
   | CApply i =>
     if has_file (DFinal i) FFlag (st_fs s) then fin (exec s (apply_ops i)) else (s, [], Skipped)
+  | CRecord i =>
+    if has_file (DFinal i) FFlag (st_fs s) then fin (exec s [ORecord i]) else (s, [], Skipped)
   | CShrink i =>
     if st_rec s <? i then (s, [], Done)
     else match read_file (DFinal i) (FSnap i) (st_fs s) with
